@@ -1,6 +1,6 @@
 (* C07 — a downlink frame counter is never reused within a session (quiescent histories). Statements only. *)
 From Coq Require Import String Sorted.
-From Lospan Require Import Base.Bytes Model.FrameTypes Model.Frame Model.Store Model.Server Proof.LocalProof.
+From Lospan Require Import Base.Bytes Base.Outcome Model.FrameTypes Model.Frame Model.Store Model.Server Proof.LocalProof.
 
 (* One sequential uplink produces at most one downlink; it is the encoding of a frame whose
    FCnt is the stored downlink counter, under the device's session keys, and the stored
@@ -26,5 +26,41 @@ Proof.
   destruct (run E D apps st evs) as [[stf rec] num]. exact (proj2 H).
 Qed.
 
+From Lospan Require Import Model.Steps Proof.SchedDataProof.
+(* Concurrent clause. ANY number of uplink handlers of one device working at the same time on ANY frames,
+   interleaved operation by operation in EVERY order (storage / output-buffer operation granularity, the
+   scheduler's per-device slot included) and cut after any number of operations, while the session has used
+   fewer than 2^16 downlink counters: the FCnt fields of the frames that leave are pairwise different and none
+   is below the counter stored when the handlers started (each encoder takes its counter from the store with
+   one fetch-and-increment statement, NextFCntDn). *)
+Theorem C07_concurrent_counters_unique :
+  forall (E D : list N -> list N -> list N) apps
+    (ups : list (frame * rxpacket * nat * N)), Forall (fun x => (fcnt (fst (fst (fst x))) < 65535)%N) ups ->
+    forall st r, ds_row st = Some r -> fb_down st -> (d_fdn r < 65536)%N -> (d_fdn r + N.of_nat (length ups) <= 65536)%N ->
+    forall sched fuel,
+      let res := interleaveN apps sched fuel st
+                   (map (fun x => uplink_prog E D (fst (fst (fst x))) (snd (fst (fst x))) (snd (fst x)) (snd x)) ups) [] in
+      (exists r', ds_row (fst res) = Some r' /\ same_session r r' /\ (d_fup r <= d_fup r')%N) /\
+      NoDup (counters (snd res)) /\ Forall (fun x => (d_fdn r <= x)%N) (counters (snd res)).
+Proof. exact concurrent_uplinks_counters. Qed.
+(* the interleaving of two handlers that the forced-schedule correspondence executes on the real pipeline *)
+Theorem C07_two_handlers_counters_unique :
+  forall (E D : list N -> list N -> list N) apps f1 rx1 n1 now1 f2 rx2 n2 now2,
+    (fcnt f1 < 65535)%N -> (fcnt f2 < 65535)%N ->
+    forall st r, ds_row st = Some r -> fb_down st -> (d_fdn r < 65535)%N ->
+    forall sched fuel,
+      let res := interleave apps sched fuel st (uplink_prog E D f1 rx1 n1 now1) (uplink_prog E D f2 rx2 n2 now2) [] in
+      (exists r', ds_row (fst res) = Some r' /\ same_session r r' /\ (d_fup r <= d_fup r')%N) /\
+      NoDup (counters (snd res)) /\ Forall (fun x => (d_fdn r <= x)%N) (counters (snd res)).
+Proof. exact two_uplinks_counters. Qed.
+(* the FCnt field read from the raw frame is the counter the frame was encoded with *)
+Theorem C07_raw_frame_carries_its_counter :
+  forall E nk ak f buf, encode_message E nk ak f = Ok buf -> le_val (firstn 2 (skipn 6 buf)) = (fcnt f mod 65536)%N.
+Proof. exact encode_message_fcnt. Qed.
+
+
 Print Assumptions C07_step.
 Print Assumptions C07_seq.
+Print Assumptions C07_concurrent_counters_unique.
+Print Assumptions C07_two_handlers_counters_unique.
+Print Assumptions C07_raw_frame_carries_its_counter.
